@@ -104,6 +104,34 @@ func workC13(w *run.W) {
 		}
 		c13Context(w, cx, p.Depth, tableWords)
 	}
+	// the one place where a directive start is decided by look-ahead: the line after free Description text. Every keyword
+	// (and response code) written there must end the text and be reported as a keyword.
+	if w.Shard == 0 && w.Only == "" && w.Begin("after-description-text") {
+		words := append([]string{}, ref.Keywords...)
+		for c := 100; c <= 599; c++ {
+			words = append(words, fmt.Sprint(c))
+		}
+		for _, pre := range []string{"GET /a\nDescription\n  text\n", "GET /a\nDescription\n  two\n  lines\n\n", "TAG @t\nDescription\ntext\r\n"} {
+			for _, wd := range words {
+				for _, tail := range []string{" x\n", "\n", ""} {
+					in := pre + "  " + wd + tail
+					L := len(pre) + 2
+					o := impl.Scan(in, 0)
+					w.Count("terminator_transitions", 1)
+					found := false
+					for _, l := range o.Lex {
+						if l.Type == "K" && l.Begin == L && l.End == L+len(wd)-1 {
+							found = true
+						}
+					}
+					if !found {
+						w.Violation("C13", "keyword-after-description-text", fmt.Sprintf("the keyword %q on the line after free Description text is not reported as a directive (lexemes %v, error %v)\n%q", wd, o.Lex, o.Err, in), map[string]any{"input": in})
+					}
+				}
+			}
+		}
+		w.End()
+	}
 	if w.Shard == 0 && w.Only == "" {
 		if w.Begin("table-reachability") {
 			for word := range tableWords {
